@@ -12,14 +12,14 @@ occurrences gives the same per-string result; re-checked every run).
 import binascii, re
 from vf import core, acbuild
 
-THM = ["YaraModel.Thm.C05", "YaraModel.Thm.C05Cond", "YaraModel.Thm.AcCert", "YaraModel.Thm.AcBuild"]
+THM = ["YaraModel.Thm.C05", "YaraModel.Thm.C05Cond", "YaraModel.Thm.C05EndToEnd", "YaraModel.Thm.AcCert", "YaraModel.Thm.AcBuild"]
 MANIFEST = dict(
     technique="Lean 4 theorem (per-string result is a function of the string and the buffer for EVERY candidate stage meeting the automaton contract) + alone-vs-company / permutation / prefix / source-split differential on the real compiler and scanner",
     text="proof: Thm/C05.lean proves that the modelled per-string result (offsets, admissible lengths/keys) is the same for ANY two candidate stages that each report exactly the occurrences "
          "of the string's atoms — i.e. whatever else shares the automaton (corollary of C01's pipeline theorem; the two hypotheses of that theorem apply). Thm/C05Cond.lean proves, over the "
          "condition language of Spec/Cond.lean (all constructs, every block layout, file size and external values), that each rule of a rule set gets the same verdict in EVERY larger rule set "
          "that contains it and the rules it refers to, in the same order, among arbitrary other rules before, between and after them (verdict_company_independent, by the frame lemma eval_rename; "
-         "verdict_alone for rules naming no other rule). The tie to the code is a differential run: each rule alone vs. in a colliding company, permutations, prefixes "
+         "verdict_alone for rules naming no other rule). Thm/C05EndToEnd.lean (company_independent_end_to_end) removes the contract hypothesis: for the automata BUILT by the model of ahocorasick.c from two different rule sets containing the same text string (any indices, windows, other strings), both report exactly its documented occurrences on every buffer. The tie to the code is a differential run: each rule alone vs. in a colliding company, permutations, prefixes "
          "(monotonicity) and source splits/includes; the automaton contract itself is checked per case through hooks in C01, and Thm/AcBuild.lean proves it for the modelled "
          "construction of the SHARED automaton for every list of non-empty atoms and every buffer (build_sound / build_candsOK: whatever else is inserted, each string's candidates are exactly "
          "the occurrences of its atoms); the construction model must build tables EQUAL to the real ones for every company and every generated rule set (text, hex, regex; growth). "
